@@ -14,8 +14,10 @@
 //!    "obs":[[f,pc,stack,locals,frames],..]  f = 0-based position in "fns"; the first element is
 //!    the state before the first step; a finished process is [-1,-1,stack,locals,0];
 //!    "truncated": true when the run was longer than "keep"}
-//! A program for which `step` returns an Action (spawn, send, await, effect) leaves the sync
-//! path: the trace ends there ("async"); what was recorded up to that point is still a valid prefix.
+//! A Send's Deliver action is dropped (nobody receives here) and a Spawn is answered with a pid at
+//! once (`notify_spawn`, no child runs), so both instructions complete and are observed; a program
+//! that awaits a process or requests an effect leaves the sync path: the trace ends there
+//! ("async"); what was recorded up to that point is still a valid prefix.
 #[path = "../vmshared.rs"]
 mod vmshared;
 
@@ -63,6 +65,7 @@ fn trace_program(j: &J) -> J {
     let mut end = "cap".to_string();
     let mut err = J::Null;
     let mut truncated = false;
+    let mut fake_pid = 1000usize;
 
     // observation of the current state; None when the process has a result
     let mut observe = |ex: &quiver_core::Executor<qharness::E>,
@@ -104,9 +107,36 @@ fn trace_program(j: &J) -> J {
     observe(&ex, &mut obs, &mut truncated);
     while steps < max_steps {
         let (did, action) = ex.step(1, now);
-        if action.is_some() {
-            end = "async".into();
-            break;
+        match action {
+            None => {}
+            // the message leaves this executor (nobody receives it here); the sender has already
+            // completed its Send and goes on
+            Some(quiver_core::Action::Deliver { .. }) => {}
+            // what the worker does when the environment answers a Spawn: hand the caller a pid
+            // (no child runs here); the caller's Spawn instruction completes
+            Some(quiver_core::Action::Spawn {
+                caller,
+                function_index,
+                ..
+            }) => {
+                fake_pid += 1;
+                ex.notify_spawn(caller, quiver_core::Value::Process(fake_pid, function_index));
+                let exhausted = ex
+                    .get_process(0)
+                    .and_then(|p| p.frames.last())
+                    .map(|f| f.counter >= functions[f.function_index].instructions.len())
+                    .unwrap_or(false);
+                if exhausted {
+                    // a Spawn that was the last instruction of its frame: the next step executes
+                    // nothing and pops the exhausted frames
+                    ex.step(1, now);
+                }
+            }
+            // await / effect: needs the environment
+            Some(_) => {
+                end = "async".into();
+                break;
+            }
         }
         if !did {
             match ex.next_timeout_ms() {
